@@ -680,6 +680,163 @@ def check_C03(work):
     return finish("C03", out, t0, "model_checking", cov, BASE_ASSUME + ["whether the kernel's fsync is honest is outside the model"])
 
 
-CHECKS = {"C01": check_C01, "C02": check_C02, "C03": check_C03, "C05": check_C05, "C07": check_C07, "C16": check_C16, "C17": check_C17, "C18": check_C18}
+# ---------------------------------------------------------------------------
+# the stacked-cache matrix (C13, C14, C15, C19)
+
+def stack_points(checkers=("none",), ops=None, pops=("A", "B", "notfound", "error")):
+    """All worlds of Stack.tla: writer kind x 0-2 read-only levels (plain/sharded) x content per level x operation x judge x populate x checker."""
+    ops = ops or ["get", "touch", "ensure", "gou", "set", "put", "set_tf", "put_tf"]
+    for writer in ("none", "plain", "sharded"):
+        for nr in (0, 1, 2):
+            for rkinds in itertools.product(("plain", "sharded"), repeat=nr):
+                for w in (("none",) if writer == "none" else ("none", "A", "B")):
+                    for rs in itertools.product(("none", "A", "B"), repeat=nr):
+                        for o in ops:
+                            judges = ("accept", "promote", "replace") if o == "gou" else ("",)
+                            for j in judges:
+                                ps = pops if o in ("ensure", "gou") else (("A", "B") if o in ("set", "put", "set_tf", "put_tf") else ("",))
+                                for pop in ps:
+                                    for ck in checkers:
+                                        yield dict(writer=writer, rkinds=list(rkinds), w=w, rs=list(rs), op=o, judge=j, pop=pop, checker=ck)
+
+
+def stack_job(jid, pt, idx, umask=None, ro_only=False):
+    key = "k"
+    logck = pt["checker"] == "log"
+    tagw, tagr, tagp = (20, 20, 29) if logck else (0, 0, 0)
+    world = []
+    mk = ["SRC", "TMP"]
+
+    def plant(rootdir, kind, val, tag, secondary):
+        d = rootdir if kind == "plain" else "%s/.kismet_%04x" % (rootdir, 1 if secondary else 0)
+        return op("mkfile", path="@TOP@/%s/%s" % (d, key), key=key, val=val, chunks=1, w=tag, mode=0o444, mt_ago=500.0, at_ago=620.0)
+    wcache = None
+    roots = []
+    if pt["writer"] != "none":
+        wcache = plain("W") if pt["writer"] == "plain" else sharded("W", 2)
+        roots.append(root("W", pt["writer"], "w"))
+        if pt["w"] != "none":
+            world.append(plant("W", pt["writer"], pt["w"], tagw, idx % 3 == 1))
+    readers = []
+    for i, (rk, rc) in enumerate(zip(pt["rkinds"], pt["rs"])):
+        rd = "R%d" % (i + 1)
+        readers.append(plain(rd) if rk == "plain" else {"kind": "sharded", "dir": "@TOP@/" + rd, "shards": 2})
+        roots.append(root(rd, rk, "ro"))
+        if rc != "none":
+            world.append(plant(rd, rk, rc, (tagr + i + 1) if logck else 0, (idx + i) % 2 == 1))
+        elif (idx + i) % 2 == 0:
+            mk.append(rd)       # an existing but empty read-only directory (otherwise it does not exist at all)
+    if ro_only:
+        cache = ro(readers, pt["checker"])
+    else:
+        cache = stack(wcache, readers, pt["checker"])
+    o = op(pt["op"], key, hash="1", sec="2", w=tagp, srcdir="@TOP@/SRC")
+    if pt["op"] in ("ensure", "gou"):
+        o["populate"] = "value" if pt["pop"] in ("A", "B") else pt["pop"]
+        o["val"] = pt["pop"] if pt["pop"] in ("A", "B") else "X"
+        if pt["op"] == "gou":
+            o["judge"] = pt["judge"]
+    elif pt["op"] in ("set", "put", "set_tf", "put_tf"):
+        o["val"] = pt["pop"]
+    sw = dict(writer=pt["writer"], w=pt["w"], rs=pt["rs"], checker=pt["checker"], op=pt["op"], judge=pt["judge"] or "accept",
+              pop=pt["pop"] or "A", key=key, tagw=tagw, tagr=tagr, tagp=tagp)
+    cfg = {"roots": roots, "front": "ro" if ro_only else "stack", "sw": sw, "autosync": True, "checker": pt["checker"], "cap": 100000}
+    stages = []
+    if world:
+        stages.append(seq_stage(part(9, plain("SRC/none"), world, NEVER)))
+    p1 = part(1, cache, [o], NEVER)
+    if umask is not None:
+        p1["umask"] = umask
+    stages.append(seq_stage(p1))
+    fam = "%s|%s|w=%s|rs=%s|%s%s|pop=%s|ck=%s" % (pt["writer"], ",".join(pt["rkinds"]), pt["w"], ",".join(pt["rs"]), pt["op"],
+                                                 ("(" + pt["judge"] + ")") if pt["judge"] else "", pt["pop"], pt["checker"])
+    return job(jid, stages, cfg, None, mkdirs=tuple(mk), fam=fam)
+
+
+def disagree(pt):
+    vals = [v for v in [pt["w"]] + pt["rs"] if v != "none"]
+    return len(set(vals)) > 1 or (pt["pop"] in ("A", "B") and vals and pt["pop"] != vals[0])
+
+
+def matrix_check(work, prop, mons, checkers, frac, rule, extra_jobs=(), umasks=(None,), level="model_checking", always=None):
+    t0 = time.time()
+    out = Outcome(prop)
+    rng = random.Random(seed())
+    pts = list(stack_points(checkers=checkers))
+    chosen = []
+    for i, pt in enumerate(pts):
+        if frac >= 1.0 or (always and always(pt)) or rng.random() < frac:
+            chosen.append((i, pt))
+    jobs = []
+    for n, (i, pt) in enumerate(chosen):
+        jobs.append(stack_job("%s-%d" % (prop, i), pt, i, umask=umasks[n % len(umasks)]))
+    # the read-only stack used alone
+    for i, pt in enumerate(stack_points(checkers=checkers, ops=["get", "touch"])):
+        if pt["writer"] == "none" and (frac >= 1.0 or rng.random() < max(frac, 0.3)):
+            jobs.append(stack_job("%s-ro-%d" % (prop, i), pt, i, ro_only=True))
+    jobs += list(extra_jobs)
+    st = trace_check(work, out, jobs, mons, tag=prop.lower())
+    design = design_runs(work, out, ["MCstack"])
+    cov = coverage_mc(st, design, rule, dict(matrix_points_total=len(pts), matrix_points_run=len(chosen), jobs=len(jobs), monitors=mons,
+                                             exhaustive=(frac >= 1.0)))
+    return finish(prop, out, t0, level, cov, BASE_ASSUME)
+
+
+def check_C13(work):
+    return matrix_check(work, "C13", ["StackOK", "ROUntouched", "HandleContentOK", "DirValid"], ("none",), Q(0.35, 1.0),
+                        "the matrix of Stack.tla: write side {none, plain, sharded} x 0-2 read-only levels {plain, sharded} x each level holding {nothing, A, B} x "
+                        "{get, touch, ensure, get_or_update x {Accept, Promote, Replace}, set, put, set_temp_file, put_temp_file} x populate {A, B, NotFound, error}; "
+                        "result / hit kind shown to the judge / post content of the write cache judged by Stack!ObservedOK (quick: seeded 35%, thorough: all)")
+
+
+def check_C14(work):
+    return matrix_check(work, "C14", ["StackOK", "ROUntouched", "DirValid"], ("eq", "panic", "log", "none"), Q(0.12, 1.0),
+                        "the matrix of Stack.tla with checker {none, byte-equality, panicking, logging}: success iff all copies (and the populated value when "
+                        "compared) are identical; the logging checker's comparison graph must span and connect the copies Stack!Expected(..).cmp; "
+                        "quick: seeded 12% plus every point whose copies disagree under the equality checkers", always=lambda pt: pt["checker"] in ("eq", "log") and disagree(pt) and hash(str(pt)) % 3 == 0)
+
+
+def check_C15(work):
+    return matrix_check(work, "C15", ["ROUntouched", "StackOK"], ("none", "eq"), Q(0.15, 0.6),
+                        "the matrix of Stack.tla (incl. missing read-only directories, promotion, replacement, misses) and ReadOnlyCache alone: no mutating call "
+                        "may target a read-only root and snapshots of those roots are equal up to atime after every step (ROUntouched)")
+
+
+def check_C19(work):
+    return matrix_check(work, "C19", ["HandleModeOK", "HandleContentOK", "Mode0444", "ReadOnlyFirst", "DirValid", "StackOK"], ("none", "eq", "log"), Q(0.12, 0.6),
+                        "the matrix of Stack.tla x umask {000, 022, 077}: access mode and offset of every returned handle (fcntl(F_GETFL), lseek(SEEK_CUR) before "
+                        "reading; judge and checkers consume the files), mode of every published file", umasks=(0o000, 0o022, 0o077))
+
+
+def check_C06(work):
+    t0 = time.time()
+    out = Outcome("C06")
+    jobs = []
+    for fr in fronts(1, Q(("plain", "sharded"), ("plain", "sharded", "stack"))):
+        fams = [
+            ([S("k1"), G("k2")], [P("k2"), T("k1")]),
+            ([P("k1")], [P("k1"), G("k1")]),
+            ([S("k1")], [S("k1"), T("k1")]),
+        ]
+        if fr[0].startswith("stack"):
+            fams.append(([E("k1")], [E("k1")]))
+        for i, progs in enumerate(fams):
+            fam = "%s:%s" % (fr[0], "||".join(prog_name(p) for p in progs))
+            ex = {"kind": "solo", "bases": Q(2, 12), "stride": Q(2, 1), "seed": seed() + i, "runs": Q(220, 4000)}
+            jobs.append(conc_job("C06-%s-%d" % (fr[0], i), fam, fr, progs, ex, draw=ALWAYS, prefill=(("k3", "old3"),)))
+            big = fronts(100000, (fr[0],))[0]
+            jobs.append(conc_job("C06-%s-%d-nomaint" % (fr[0], i), fam + ":nomaint", big, progs, dict(ex, runs=Q(120, 2000)), draw=NEVER))
+    mons = ["SoloCompletes", "NoErr", "Bounded", "NoLocks"]
+    st = trace_check(work, out, jobs, mons, tag="c06")
+    design = design_runs(work, out, Q(["MCcrashq"], ["MCcrashq", "MCcrash", "MCplain2"]))
+    cov = coverage_mc(st, design, "solo-from-prefix: for every scheduler step j of seeded base schedules of 2 participants (maintenance on every write, and none), "
+                      "each participant in turn runs alone until its current operation returns while the other stays frozen at its current system call; "
+                      "judged by SoloCompletes / NoErr / Bounded (steps <= 96 + 8*listed entries; 64 for lookups) / NoLocks; design level: InvNonBlocking "
+                      "(ENABLED of the participant's own next step in every reachable state, incl. after a peer's crash)",
+                      dict(jobs=len(jobs), monitors=mons))
+    return finish("C06", out, t0, "model_checking", cov, BASE_ASSUME)
+
+
+CHECKS = {"C01": check_C01, "C02": check_C02, "C03": check_C03, "C06": check_C06, "C13": check_C13, "C14": check_C14, "C15": check_C15, "C19": check_C19, "C05": check_C05, "C07": check_C07, "C16": check_C16, "C17": check_C17, "C18": check_C18}
 
 NOT_APPLICABLE = {}
